@@ -395,6 +395,7 @@ def check(run):
     r6_digit_evidence(run, F, D)
     r7_digit_tables(run, F)
     r8_suffix_start(run, F, D)
+    r9_first_error_wins(run, F, D)
     # the first generation's counterpart of R6-DIGIT-EVIDENCE: `0x` / `0b` without a digit is E141 for both lexers
     from props import c09
     c09.r9_radix_needs_digit(run, F, A)
@@ -460,6 +461,48 @@ def r8_suffix_start(run, F, D):
                    "inside the loop that consumes digits and `_` separators the start of the suffix is set in a digit branch but not in the `_` branch: "
                    "`40_i32` would have the suffix `_i32` (E141) while the first generation reads 40i32")
     run.floor("R8-SUFFIX-START", 6, "definitions and scanning loops in the two digit arms")
+
+
+def r9_first_error_wins(run, F, D):
+    """A quoted literal with several defects is one Error token carrying the *first* defect (both lexers: the first-generation one
+    stops looking after its first error).  In the second-generation scanner the per-literal slot for the error (an
+    `Option<(error, location)>` local that starts as None) is only ever filled under the test that it is still empty."""
+    b = D.body
+    slots = {}
+    for n in walk(b["hir"]):
+        if n.get("k") == "Let" and hirq.strip_ref(n["pat"]).get("k") == "Bind" and isinstance(n.get("init"), dict):
+            p = hirq.strip_ref(n["pat"])
+            t = str(F.lib.types[p["t"]]) if p.get("t") is not None else ""
+            init = hirq.unwrap_trivial(n["init"])
+            if t.startswith("std::option::Option<(") and "TokenLocation" in t and init.get("k") == "Path" and str(init.get("res", "")).endswith("None"):
+                slots[p["lid"]] = n.get("l")
+    run.require(len(slots) >= 2, "the per-literal error slots of the scanner were not found (%d)" % len(slots))
+    found = []
+
+    def visit(n, anc):
+        if n.get("k") == "Assign" and hirq.unwrap_trivial(n["lhs"]).get("lid") in slots:
+            lid = hirq.unwrap_trivial(n["lhs"])["lid"]
+            guarded = False
+            for a, slot in reversed(anc):
+                if a.get("k") == "If" and slot == "then":
+                    for c in walk(a["cond"]):
+                        if c.get("k") == "MethodCall" and c.get("name") == "is_none" and hirq.unwrap_trivial(c["recv"]).get("lid") == lid:
+                            # the test itself, or a conjunction that contains it (not under a negation or a disjunction)
+                            guarded = not any(x.get("k") == "Binary" and x.get("op") == "Or" for x in walk(a["cond"])) and \
+                                not any(x.get("k") == "Unary" and x.get("op") == "Not" and any(y is c for y in walk(x)) for x in walk(a["cond"]))
+                    if guarded:
+                        break
+            found.append((n, guarded))
+        for slot, c in hirq._children(n):
+            anc.append((n, slot))
+            visit(c, anc)
+            anc.pop()
+    visit(b["hir"], [])
+    for i, (n, guarded) in enumerate(sorted(found, key=lambda x: x[0].get("l", 0))):
+        run.ob("R9-FIRST-ERROR-WINS", "assignment %d" % i, guarded, F.where(b, n),
+               "the error of a quoted literal is recorded only while none has been recorded (`if slot.is_none()`): a later defect must not replace the first, "
+               "which is the one the first-generation lexer reports")
+    run.floor("R9-FIRST-ERROR-WINS", 10, "places where the scanner records the error of a quoted literal (13 counted)")
 
 
 def r7_digit_tables(run, F):
